@@ -190,6 +190,12 @@ func (ch c11) Run(c *core.Ctx) {
 		conn.CloseWrite()
 		conn.WaitClosed()
 	}
+	// start-up packets of every shape - protocol versions other than 3.0, odd parameter lists - followed by
+	// a query: the packet gets inside TLS, and in plaintext after a declined SSLRequest, what it gets as the
+	// first packet of a plaintext connection (replies, error codes, callbacks, whether the connection ends)
+	if c.Begin(935000) {
+		ch.startupVariants(c, envTLS, envNone)
+	}
 	// Terminate on a server with a terminate hook: over either transport nothing is sent between the
 	// arrival of the Terminate and the hook (the end of the stream - FIN, or close_notify and FIN - comes
 	// after the hook, as it does in plaintext)
@@ -805,4 +811,107 @@ func (ch c11) odd(c *core.Ctx, env, envNone *hs.Env, s c15session, rng *core.Rng
 	t.conn.CloseWrite()
 	t.conn.WaitClosed()
 	ch.rawChecks(c, t, [][]byte{[]byte("tls-probe-value-" + s.User)}, cs, "odd client behaviour inside TLS")
+}
+
+func (ch c11) startupVariants(c *core.Ctx, envTLS, envNone *hs.Env) {
+	rng := core.NewRng(c.Seed, "C11v", c.Batch, 0)
+	kv := func(pairs ...string) []byte {
+		var b []byte
+		for _, x := range pairs {
+			b = append(append(b, x...), 0)
+		}
+		return append(b, 0)
+	}
+	type variant struct {
+		name string
+		pkt  []byte
+	}
+	var vs []variant
+	for _, v := range []uint32{0x00030000, 0x00030001, 0x00030002, 0x0003270f, 0x00020000, 0x00010000, 0x00040000, 0x00000001, 0, 0x04d20001, 0xffffffff, 0x00030000 + uint32(rng.Intn(1<<16)), uint32(rng.Intn(1<<16) << 16)} {
+		if v == pg.VerSSL || v == pg.VerCancel || v == pg.VerGSSENC {
+			continue
+		}
+		vs = append(vs, variant{fmt.Sprintf("version %d.%d", v>>16, v&0xffff), pg.StartupRaw(v, kv("user", "u", "database", "d"))})
+	}
+	vs = append(vs,
+		variant{"no parameters", pg.StartupRaw(pg.Version30, []byte{0})},
+		variant{"no user", pg.StartupRaw(pg.Version30, kv("database", "d"))},
+		variant{"empty user", pg.StartupRaw(pg.Version30, kv("user", ""))},
+		variant{"user twice", pg.StartupRaw(pg.Version30, kv("user", "u1", "user", "u2"))},
+		variant{"key without value", pg.StartupRaw(pg.Version30, append([]byte("user\x00u\x00orphan\x00"), 0))},
+		variant{"no list terminator", pg.StartupRaw(pg.Version30, []byte("user\x00u\x00"))},
+		variant{"bytes behind the terminator", pg.StartupRaw(pg.Version30, append(kv("user", "u"), "surplus"...))},
+		variant{"long value", pg.StartupRaw(pg.Version30, kv("user", strings.Repeat("u", 2000), "options", strings.Repeat("-c x=y ", 300)))},
+		variant{"version word only", pg.StartupRaw(pg.Version30, nil)},
+	)
+	prog := &hs.Prog{Stmts: []*hs.Stmt{{ID: "t", Cols: textCols(1), Ops: []hs.Op{{K: "row", Vals: []any{"v"}}, {K: "complete", Tag: "SELECT 1"}}}}}
+	sig := func(out []byte, closed bool, conn *tr.Conn) string {
+		msgs, rest, err := pg.ParseStream(out)
+		var b strings.Builder
+		last := byte(0)
+		for _, m := range msgs {
+			if m.T == 'S' && last == 'S' {
+				continue
+			}
+			last = m.T
+			b.WriteByte(m.T)
+			if m.T == 'E' {
+				b.WriteString("(" + m.Err['S'] + " " + m.Err['C'] + ")")
+			}
+		}
+		if err != nil || rest != 0 {
+			b.WriteString(" +unparsable")
+		}
+		cbs := 0
+		for _, e := range conn.Events() {
+			if e.Kind == "cb" {
+				cbs++
+			}
+		}
+		return fmt.Sprintf("%s closed=%v callbacks=%d", b.String(), closed, cbs)
+	}
+	for vi, v := range vs {
+		in := append(append([]byte(nil), v.pkt...), pg.Query("t")...)
+		cs := map[string]any{"workload": "start-up variants", "variant": v.name}
+		mk := func() *hs.Sess { return &hs.Sess{Default: func(string) *hs.Prog { return prog }} }
+		// the reference: first packet of a plaintext connection
+		conn := envTLS.Dial(mk())
+		conn.Send(in)
+		closed, _ := conn.Quiesce()
+		ref := sig(conn.Out(), closed, conn)
+		conn.CloseWrite()
+		conn.WaitClosed()
+		// after a declined SSLRequest
+		conn = envNone.Dial(mk())
+		conn.Send(pg.SSLRequest())
+		conn.Quiesce()
+		if string(conn.Out()) == "N" {
+			conn.Send(in)
+			closed, _ = conn.Quiesce()
+			if got := sig(conn.Out()[1:], closed, conn); got != ref {
+				c.Violate("plaintext-after-N", "a start-up packet is treated differently after a declined SSLRequest", fmt.Sprintf("%s: %s, as first packet %s", v.name, got, ref), cs)
+			}
+		}
+		conn.CloseWrite()
+		conn.WaitClosed()
+		// inside TLS
+		ver := []uint16{tls.VersionTLS12, tls.VersionTLS13}[vi%2]
+		t, reply, err := c11upgrade(envTLS, mk(), nil, false, ver)
+		if err != nil {
+			c.Violate("upgrade", "TLS upgrade failed", fmt.Sprintf("reply %q: %v", reply, err), cs)
+			return
+		}
+		out, closed := t.step(in)
+		if got := sig(out, closed, t.conn); got != ref {
+			c.Violate("tls-differs", "a start-up packet is treated differently inside TLS", fmt.Sprintf("%s: inside TLS %s, in plaintext %s", v.name, got, ref), cs)
+		}
+		t.tc.Close()
+		t.conn.CloseWrite()
+		t.conn.WaitClosed()
+		c.Count("startup_variants_compared_across_transports", 1)
+		c.Eval("startup variant "+v.name, true)
+		if vi == 0 {
+			c.Sample(map[string]any{"workload": "start-up variants", "variant": v.name, "outcome": ref})
+		}
+	}
 }
